@@ -57,32 +57,39 @@ Record column := mkCol {
   c_r32 : list (Z * (Z * bool))   (* float32 rounding of the finite floats that occur (CPython/IEEE fact) *)
 }.
 
+Definition is_none (v : pyval) : bool := match v with PNone => true | _ => false end.
+
+(** the value createDataFrame infers a column's type from: the first one that is not None (regenerated flag;
+    false = the first row's value, the behaviour before the repair) *)
+Definition sample_of (first_non_none : bool) (vs : list pyval) : option pyval :=
+  if first_non_none then find (fun v => negb (is_none v)) vs else hd_error vs.
+
 Section ColumnCheck.
   Variable ich : chain ikind.
   Variable lch : chain lact.
   Variable fch : chain fact.
   Variable vch : chain vact.
+  Variable floats_via_lit : bool.
+  Variable first_non_none : bool.
 
   Definition col_type (c : column) : option sty :=
     if c_sel c then None
     else match c_decl c with
          | Some t => Some t
-         | None => match c_vals c with v0 :: _ => infer ich v0 | [] => None end
+         | None => match sample_of first_non_none (c_vals c) with Some v0 => infer ich v0 | None => None end
          end.
 
   Definition model (c : column) : list (option pyval) :=
-    col_pipeline ref_eleaf ref_cleaf ref_pleaf (ref_round32 (c_r32 c)) lch fch vch (col_type c) (c_vals c).
+    col_pipeline ref_eleaf ref_cleaf ref_pleaf (ref_round32 (c_r32 c))
+                 (if c_sel c then lit_top lch fch else cell_lit lch fch floats_via_lit) vch (col_type c) (c_vals c).
 
-  (** premise of column_roundtrip / column_untyped / lit_select_roundtrip (for an inferred type also: the first
-      value is uniform, so that infer_type_sound applies) *)
+  (** premise of column_roundtrip / column_untyped (for an inferred type also: the sampled value is uniform, so
+      that infer_type_sound applies; for select(lit(v)): v is not an infinity) *)
   Definition in_domain (c : column) : bool :=
     match col_type c with
     | Some t => forallb (col_member t) (c_vals c)
-                && match c_decl c, c_vals c with None, v0 :: _ => uniform v0 | _, _ => true end
-    | None => match c_vals c with
-              | [v] => untyped_ok v
-              | vs => forallb plainv vs
-              end
+                && match c_decl c, sample_of first_non_none (c_vals c) with None, Some v0 => uniform v0 | _, _ => true end
+    | None => if c_sel c then forallb untyped_ok (c_vals c) else forallb supp (c_vals c)
     end.
 
   (** per cell four flags: impl = model, impl = spec, model = spec, column in the theorem's domain *)
